@@ -8,7 +8,7 @@ CHECKS = {
         "engine": "input-enum", "category": "model_checking", "design_ref": "DESIGN.md §2 C10",
         "technique": "bounded-exhaustive enumeration of lexeme sequences against the tiling law",
         "text": SMALL_SCOPE + "All sequences of <=3 (quick) / <=4 (thorough) lexemes over a 66-lexeme scanner alphabet plus "
-                "<=5 / <=7 lexemes over the 12 cursor-rewind lexemes are scanned by the real extension and checked against the tiling law.",
+                "<=5 / <=7 lexemes over the 12 cursor-rewind lexemes are scanned by the real extension and checked against the tiling law (scan() and the tokenize() stream the parser consumes); single tokens of every class at sizes around 2^8..2^17; plus a free-running pass: two OS threads scanning different texts concurrently, each result compared with the single-threaded scan (counted separately, not called exhaustive).",
         "note": "alphabet chosen from the re2c rules; longer inputs and characters outside the alphabet are not covered; scanner rebuilt from _uscan.cc (re2c not installed, _uscan.re is not consulted)",
     },
     "C16": {
@@ -24,40 +24,40 @@ CHECKS = {
         "technique": "same explicit-state BFS; lock-step comparison of every RPC return and every quiescent state with a sequential reference model",
         "text": "Same exploration as C16 over the alphabet extended with re-add and wait; every atomic step of the linearised trace is fed to a boring reference "
                 "model (mc/ref/queue_ref.py) which predicts each return value: channel eligibility, never a finished job, (priority, serial) order, first-of-finish/kill/timeout wins, "
-                "wait released exactly when finished, idempotent add, counters (getstats/qinfo observed in every state).",
+                "wait released exactly when finished, idempotent add, counters (getstats/qinfo observed in every state). Further phases: a narrow configuration to a deeper bound, falsy client ids ('' and 0), client ids that are the next server numbers.",
         "note": "bounds as C16; the reference model is given the implementation's nondeterministic waiter choice, it never demands a particular one.",
     },
     "C18": {
         "engine": "chub-bfs", "category": "model_checking", "design_ref": "DESIGN.md §3 C18",
         "technique": "same BFS with a save/restore transition (real pickle path) enabled in every quiescent state, exploration continues after it",
         "text": "The restart step is Main.savedb() to a scratch directory and Main.loaddb() in a fresh Main with all connections dropped; enabled in every state (<=1 quick / <=2 thorough per history); "
-                "after it the C16 invariants/drain probe (order included) and the C17 reference model stay armed.",
+                "after it the C16 invariants/drain probe (order included) and the C17 reference model (counters included) stay armed. Further phases: server-assigned ids with error finishes and the watchdog, mixed id types, jobs with three different timeouts (every deadline must still hold after the restart). The state key keeps the layout of both heaps.",
         "note": "server stopped between event-loop iterations only; per-channel outcome counters are not part of the saved state and are not compared after a restart.",
     },
     "C19": {
         "engine": "chub-bfs", "category": "model_checking", "design_ref": "DESIGN.md §3 C19",
         "technique": "BFS over job histories of one collection on the real nserve.Application bound in-process to the real queue; status compared with job objects in every state; exhaustive filename enumeration",
         "text": "Real do_render/do_render_status with the queue proxy bound in-process to the real queue server world; events render/pull/setinfo/finish(4 result shapes, error)/kill/timeout/watchdog(ttl)/EOF; "
-                "in every reachable state the status for both writers and an unknown collection is compared with the real job objects. Content-Disposition: all names of <=3/<=4 symbols over 24 printable symbols.",
+                "in every reachable state the status for both writers and an unknown collection is compared with the real job objects. Every history is re-run with a status poll after every event (polled twin); once per process another collection is served by every writer first; second phase: a render job killed and requested again (one writer, one worker, bound 16/20). Content-Disposition: all names of <=3/<=4 symbols over 24 printable symbols.",
         "note": "quick: 6 events deep (cost 12), one render per writer; thorough: 8 events, two renders per writer, time-capped. Header-safety = ASCII token without control/space/;,\" plus RFC 5987 value decoding to the stripped name.",
     },
     "C12": {
         "engine": "input-enum", "category": "model_checking", "design_ref": "DESIGN.md §2 C12",
         "technique": "exhaustive enumeration of title spellings per (site, namespace name) against a reference normal form, plus idempotence",
         "text": SMALL_SCOPE + "site x namespace x every name/alias x case x separator x leading colon x surrounding whitespace/directional marks x remainder x remainder spelling x default namespace; "
-                "all spellings must give the one canonical (ns, partial, full); re-normalising the canonical name is the identity.",
+                "all spellings must give the one canonical (ns, partial, full); re-normalising the canonical name is the identity; for every ordered pair of sites, site B is asked - after a handler of site A was used in the same process - with every namespace name any bundled site knows.",
         "note": "quick: en/de/ja and default namespaces {0,10}; thorough: all 12 bundled sites, 5 default namespaces (64M splitname calls). Which capital a letter maps to (ß, ǆ) is not judged. Namespace names that are ambiguous within a site are skipped and counted.",
     },
     "C13": {
         "engine": "input-enum", "category": "model_checking", "design_ref": "DESIGN.md §2 C13",
         "technique": "exhaustive enumeration of small metabooks; round trip, fixed point, id invariance/sensitivity, all-pairs id injectivity by grouping",
-        "text": SMALL_SCOPE + "all metabooks with <=2 (quick) / <=3 (thorough) items over 24 articles + 14 chapters, x optional-field presence; 7 serialisation variants, 8 single-field mutations, both make_collection_id implementations (nserve, serve).",
+        "text": SMALL_SCOPE + "all metabooks with <=2 (quick) / <=3 (thorough) items over 24 articles + 14 chapters, x optional-field presence; 8 serialisation variants (incl. explicit nulls), single-field and URL-component mutations, both make_collection_id implementations (nserve, serve), class-aware round trip, histories load/modify/load on one text, blank-only pairs, and the same request identified in child interpreters with hash seeds 1..6.",
         "note": "field values from small fixed domains; equality is recursive _json() equality.",
     },
     "C14": {
         "engine": "input-enum", "category": "model_checking", "design_ref": "DESIGN.md §2 C14",
         "technique": "exhaustive enumeration of write histories through the real FsOutput -> zip -> make_wiki path, all lookup spellings; fs_escape injectivity over all short canonical titles",
-        "text": SMALL_SCOPE + "texts x titles x 4 write methods x all write orders of 3 records; redirects incl. chains; image titles in en/de x namespace aliases/case/underscore/percent spellings; 3.4k canonical titles for file-name injectivity.",
+        "text": SMALL_SCOPE + "texts x titles x 4 write methods x all write orders of 3 records; redirects incl. chains; image titles in en/de x namespace aliases/case/underscore/percent spellings and runs of separators; pairs of image titles differing by case, separators, NFC and compatibility characters; 3.4k canonical titles for file-name injectivity.",
         "note": "one known finding (text starting with FF + ' --page-- ') is reported as KNOWN-FINDING; texts containing the full record separator and %XX titles are excluded as the statement says.",
     },
     "C15": {
@@ -71,7 +71,7 @@ CHECKS = {
         "engine": "fsfault", "category": "fault_enumeration", "design_ref": "DESIGN.md §3 C20",
         "technique": "exhaustive crash-point / torn-write / injected-error enumeration over the recorded file-system operation history of each producer (LD_PRELOAD shim, forked child per schedule)",
         "text": "For each producer history (Status x3 dumps, buildzip.make_zip, ZipCreator.create_zip, fetch.download_to_file, the mw-render command with the real rl writer; each with and without a complete previous version) "
-                "the file-system operations are recorded and then the process is killed before every operation, after half of every write, every operation fails once with ENOSPC/EIO, and (status in quick, all small producers in thorough) every error-then-crash pair. "
+                "the file-system operations are recorded and then the process is killed before every operation, after half of every write, every operation fails once with ENOSPC/EIO, and (status in quick, all small producers in thorough) every error-then-crash pair, every crash followed by a second run in the same directory, and the disk filling up inside every write (half stored, short count returned, ENOSPC from then on). "
                 "The surviving parent checks that the published path is absent, the complete previous version, or a complete new version.",
         "note": "process kill semantics (completed syscalls persist); libc-level interposition of the calls CPython, zipfile, shutil and reportlab use; producers' network/collection inputs are stubbed at make_nuwiki / the httpx client.",
     },
@@ -107,7 +107,7 @@ CHECKS = {
         "engine": "input-enum", "category": "model_checking", "design_ref": "DESIGN.md §2 C04",
         "technique": "bounded-exhaustive enumeration of #expr trees and template programs against reference interpreters written from the MediaWiki documentation",
         "text": SMALL_SCOPE + "every #expr tree with <=2 operator nodes over 16 binary + 6 unary operators and 6 literals (thorough: + exactly 3 operator nodes over 3 literals), serialised with minimal and with full parentheses, compared numerically with mc/ref/expr_ref.py; "
-                "every (T1 body, T2 body, page construct, whitespace variant) of the template grammar (parameters, defaults, positional/named/duplicate bindings, nested calls, #if, #ifeq, #switch with fall-through and #default) compared as strings with mc/ref/tmpl_ref.py; brace-free text unchanged.",
+                "every (T1 body, T2 body, page construct, whitespace variant) of the template grammar (parameters, defaults, positional/named/duplicate bindings, nested calls, #if, #ifeq, #switch with fall-through and #default) compared as strings with mc/ref/tmpl_ref.py (switch keys in both orders, default rules, numeric spellings, padded parameter names, values composed of several pieces with inner blanks); brace-free text unchanged.",
         "note": "the exhaustive bound is by size, not the statement's depth 5/4; undefined reference values (division by zero, negative mod operand) are skipped and counted; digit formatting is not compared.",
     },
     "C09": {
@@ -129,7 +129,7 @@ CHECKS = {
     "C07": {
         "engine": "input-enum", "category": "model_checking", "design_ref": "DESIGN.md §2 C07",
         "technique": "bounded-exhaustive enumeration of in-domain grammar documents with a differential oracle on the same tree before/after clean_all()",
-        "text": SMALL_SCOPE + "every in-domain document of grammar G (every heading followed by body text, no removal trigger) up to the block bound; the visible token sequence, each token's section path, list-item depth and reference must be unchanged by cleaning and tokens of tables with >=2 rows and columns must stay in a table.",
+        "text": SMALL_SCOPE + "every in-domain document of grammar G (every heading followed by body text, no removal trigger) up to the block bound; the visible token sequence, each token's section path, list-item depth and reference must be unchanged by cleaning and tokens of tables with >=2 rows and columns must stay in a table; the tree must show no text but the document's; ordered pairs of articles cleaned by ONE cleaner (reuse / Book) against fresh cleaners; every block twice with identical words, and blocks whose entries repeat inside one list (plain word lists before/after).",
         "note": "documents are far below the cleaner's size heuristics by construction.",
     },
     "C08": {
@@ -144,7 +144,7 @@ CHECKS = {
         "engine": "chub-bfs", "category": "model_checking", "design_ref": "DESIGN.md §3 C11",
         "technique": "exhaustive enumeration of synthetic-wiki configurations on the real fetcher under the controlled gevent hub, plus deviation-bounded enumeration of API response delivery orders (stateless re-execution with a choice prefix)",
         "text": "The real make_nuwiki/StartFetcher/Fetcher/FsOutput run in a greenlet under the driver-controlled hub; MwApi is subclassed only at the HTTP boundary, which blocks until the explorer delivers the synthetic wiki's answer. "
-                "Every configuration of the feature product (template depth 0-2, image none/direct/only-through-deepest-template/shared, redirect none/single/chain/self/cycle/dead, revisions single/two/pinned old, second article, missing page, chapters, noimages, API batch size 1/2/50, result limit 1/2/3/500 with continuation) "
+                "Every configuration of the feature product (template depth 0-2, image none/direct/only-through-deepest-template/shared, redirect none/single/chain/self/cycle/into-cycle/dead, revisions single/two/pinned old, second article, missing page, chapters, noimages, API batch size 1/2/50, result limit 1/2/3/500 with continuation) "
                 "is fetched under FIFO delivery; for the representative configurations every delivery order with <=1 (quick) / <=2 (thorough) deviations from FIFO is executed. The archive is read back with nuwiki.Adapt and compared with what the wiki serves.",
         "note": "one wiki; no HTTP errors; image downloads complete when requested (only API responses are re-ordered); request batch size 1/2/50 and result limits 1/2/3/500 with old-style query continuation for images and contributors.",
     },
